@@ -2,6 +2,9 @@
    NO proofs in this file.
 
    Granularity: one label = one atomic region of the Go code.
+     (A cleaning pass is NOT one label: LCleanBegin = getSize + markStale, then one LCleanCache c per cache of the
+      snapshot, and any other label -- the save of a load started before the pass, a hit that re-homes an entry, a
+      Rotate -- may stand between them; "uninterrupted pass" = the event ECleanup below.)
      LStep t   thread t (a Get/GetWithError call) does its next region:
                  PStart false -> getOrCreate's first locked region: payload[key] examined (hit / found-loading:
                             remember its wg, unlock / absent: create)                       [PEnter]
@@ -141,11 +144,16 @@ Record variant := mkV {
                               (false: a seeded regression that ran the SetGeneration loop over a snapshot before taking the lock) *)
   v_rebuild_all : bool;    (* recreatePayload copies EVERY entry into the new map (false: a seeded regression that
                               skipped entries with wg != nil, i.e. also entries that are still loading) *)
-  v_retry_recheck : bool   (* getOrCreate's waiter loop is `for ok { ...; c.mu.Lock(); e, ok = c.payload[key] }`: after a failed
+  v_retry_recheck : bool;  (* getOrCreate's waiter loop is `for ok { ...; c.mu.Lock(); e, ok = c.payload[key] }`: after a failed
                               load the waiter re-reads payload[key] under the lock (false: a seeded regression `if ok { ...;
                               c.mu.Lock() }` that falls through to the create code without looking at the map again) *)
+  v_save_deleted_only : bool (* save zeroes the size only of an entry that was deleted while loading: `if e.deleted { size = 0 }`
+                              (false: a seeded regression `if e.deleted || e.gen.stale { size = 0 }` -- "the running pass will drop
+                              the entry anyway" -- although save re-homes the entry to the current generation two lines below) *)
 }.
-Definition repaired := mkV true true true true true true true.
+Definition repaired := mkV true true true true true true true true.
+(* save takes an entry whose generation is marked stale for one that the running pass will drop (only in the seeded variant) *)
+Definition stale_zero (var : variant) (stale : bool) : bool := if v_save_deleted_only var then false else stale.
 (* the waiter retries WITHOUT re-examining the map (only in the seeded variant, only on the retry path) *)
 Definition blind_retry (var : variant) (rt : bool) : bool := rt && negb (v_retry_recheck var).
 
@@ -208,7 +216,7 @@ Definition step_thread (var : variant) (st : state) (t : nat) : option state :=
               match nth_error (caches st) c with
               | None => None
               | Some ca =>
-                let size := if edeleted en then 0 else esz st + s in
+                let size := if edeleted en || stale_zero var (gst (egen en) (gens st)) then 0 else esz st + s in
                 let g := if v_save_rehome var then ccur ca else egen en in
                 (* PAdd g s: the goroutine is between save's unlock and its return; s = what it still has to Add *)
                 let gs := if v_add_locked var then gadd g size (gens st) else gens st in
@@ -227,6 +235,17 @@ Definition step_thread (var : variant) (st : state) (t : nat) : option state :=
 (* ------------------------------------------------------------------ cleaner *)
 Definition acct (st : state) : Z := zsum (map (fun g => gsz g (gens st)) (listed st)).      (* getSize *)
 Definition live (st : state) : Z := zsum (map (fun e => if eattached e then esize e else 0) (entries st)).
+
+(* what the live entries really occupy: entrySize + the size its loader reported, for every valid entry in a payload map
+   (independent of the size field the code keeps; = live in every reachable state of the code as it is, Props.v) *)
+Definition owner_size (ths : list thread) (e : entry) : Z :=
+  match nth_error ths (eowner e) with
+  | Some th => match tout th with OVal _ s => s | _ => 0 end
+  | None => 0
+  end.
+Definition occupied (st : state) : Z :=
+  zsum (map (fun e => if eattached e && match estat e with EValid => true | _ => false end
+                      then esz st + owner_size (threads st) e else 0) (entries st)).
 
 (* Cleaner.rotate(NewGeneration()) *)
 Definition rotate (st : state) : state :=
@@ -484,7 +503,11 @@ Inductive ev :=
 | ENew
 | ERelease (c : nat)
 | ERotate
-| ECleanup            (* Cleaner.Cleanup: LCleanBegin, then Cache.Cleanup of every bucket *)
+| ECleanup            (* Cleaner.Cleanup, uninterrupted: LCleanBegin, then Cache.Cleanup of every bucket *)
+| ECleanMark          (* Cleaner.Cleanup up to the end of markStale (the cleaner is parked inside CleanerMetrics.Oldest.Set, after
+                         the generations were marked stale, before any cache is swept): LCleanBegin *)
+| ECleanSweeps        (* the parked pass goes on: Cache.Cleanup of every bucket of its snapshot (= the bucket list: no
+                         AddBucket / ReleaseBuckets in the window), then it returns: LCleanCache c ... *)
 | EGcGens             (* CleanEmptyGenerations *)
 | ERotateNew          (* a Rotate that rotates, with a NewCache (AddBucket) started from inside its SetGeneration loop:
                          AddBucket needs the cleaner lock, which rotate holds: LRotate; LNewCache *)
@@ -641,6 +664,12 @@ Definition exec_ev (st : state) (e : ev) : option (state * list Z) :=
                          end
           | r => Some (st1, r)
           end
+      | None => None
+      end
+  | ECleanMark => match step st LCleanBegin with Some st1 => Some (st1, ret st1) | None => None end
+  | ECleanSweeps =>
+      match clean_all (buckets st) st 0 0 with
+      | Some (st2, bytes, cleaned) => Some (st2, [bytes; cleaned; nrec st2])
       | None => None
       end
   | ERotateNew =>
